@@ -49,7 +49,7 @@ def run(tier):
         os.remove(tr)
     # systematic families: a key with a TTL stops existing in every way its type offers and its name is reused by a
     # command that must not give it a TTL; sorted sets with tied scores under every inclusive / exclusive bound
-    fam = kc.lifecycle_scenarios() + kc.zset_tie_scenarios(vlib.seed(), 200 if thorough else 40)
+    fam = kc.lifecycle_scenarios() + kc.deadline_scenarios() + kc.zset_tie_scenarios(vlib.seed(), 200 if thorough else 40)
     p = vlib.write_ndjson(os.path.join(wd, "families.ndjson"), fam)
     tr = os.path.join(wd, "families.trace.ndjson")
     vlib.vh(["ks", "replay", p, "--out", tr])
